@@ -27,6 +27,8 @@ class LifecycleAdmin(actors.Party):
             return {"op": "lookup", "b": b}
         if x < 0.85:
             return {"op": "other_store", "b": b, "ev": gen.event(r, self.cfg["lat"])}
+        if x < 0.9:
+            return {"op": "stale_read", "b": b, "kind": r.randrange(0, 4)}
         s = {"op": "describe", "b": b}
         if r.random() < 0.4:
             s["stale"] = True
@@ -45,7 +47,7 @@ class C05(Check):
         "Datastore.buckets(), Bucket.metadata() and the event listing are compared with a dict model; non-trivial = a "
         "bucket holding events was deleted or a missing-bucket operation was issued; distinct = (backend, op-kind sequence)"
     )
-    expected_probes = ["delete_with_events", "recreate_after_delete", "update_live", "missing_lookup", "missing_describe", "missing_update", "missing_delete", "stale_handle_describe", "restart_clean", "new_datastore", "name_omitted", "data_given", "event_observation_deferred", "other_store_in_same_process"]
+    expected_probes = ["delete_with_events", "recreate_after_delete", "update_live", "missing_lookup", "missing_describe", "missing_update", "missing_delete", "stale_handle_describe", "restart_clean", "new_datastore", "name_omitted", "data_given", "event_observation_deferred", "other_store_in_same_process", "read_through_stale_handle"]
     assumptions = ["duplicate creation of a live id is not generated (the property is silent about it)", "update fields are non-empty strings / non-empty dicts (the property's quantifier)"]
 
     def gen(self, seed, idx, tier):
@@ -87,7 +89,10 @@ class C05(Check):
         raise Violation("listing", "a freshly created store already lists buckets %s that were never created in it" % sorted(world.view), {"op": "start"})
 
     def _cmp_listing(self, world, op):
-        listing = world.ds.buckets()
+        try:
+            listing = world.ds.buckets()
+        except Exception as e:
+            raise Violation("listing", "after %s listing the buckets raised %r" % (op, e), {"op": op})
         if sorted(listing) != sorted(self.model):
             raise Violation("listing", "after %s the listing has buckets %s, expected %s" % (op, sorted(listing), sorted(self.model)), {"op": op})
         for b, want in self.model.items():
@@ -105,7 +110,10 @@ class C05(Check):
                     raise Violation("listing", "after %s Bucket.metadata() of %r has %s=%s, expected %s" % (op, b, k, short(md.get(k)), short(v)), {"op": op})
 
     def _cmp_counts(self, world, op):
-        view = world.refresh_view()
+        try:
+            view = world.refresh_view()
+        except Exception as e:
+            raise Violation("listing", "after %s reading back the buckets raised %r" % (op, e), {"op": op})
         for b, n in self.count.items():
             got = len(view.get(b, {}).get("events", []))
             if got != n:
@@ -119,7 +127,7 @@ class C05(Check):
         pr = world.probes
         live = b in self.model
         self._last_op = op
-        if op in ("update", "delete_bucket", "lookup", "describe"):
+        if op in ("update", "delete_bucket", "lookup", "describe", "stale_read"):
             self._last_missing = not live
         if op == "create":
             if exc is not None:
@@ -216,7 +224,7 @@ class C05(Check):
                 for b2 in self.model:
                     world.view.setdefault(b2, {"meta": None, "events": []})
         except Violation as v:
-            if not live and op in ("update", "delete_bucket", "lookup", "describe"):
+            if not live and op in ("update", "delete_bucket", "lookup", "describe", "stale_read"):
                 raise Violation("missing_changes_nothing", v.message, {"op": op})
             if op == "delete_bucket":
                 raise Violation("delete_removes_events" if v.tag == "starts_empty" else v.tag, v.message, {"op": op})
